@@ -484,11 +484,60 @@ func volume(a *hx.Args, res *hx.Result) {
 		job := j.(*keyjob)
 		job.cands = append(job.cands, projectCand(kind, param, p, q, stored))
 	})
+	// per worker goroutine: the sequence of hook points it passed (validated by SafePrimeWorkersTrace.tla)
+	var wseqMu sync.Mutex
+	wseq := map[int64][]string{}
 	safeprime.SetVerifHook(func(point string, args ...any) {
 		if i, ok := points[point]; ok {
 			hookCount[i].Add(1)
 		}
+		ev := ""
+		switch point {
+		case "worker.generated":
+			ev = "gen-ok"
+			if len(args) > 2 && args[2] != nil {
+				if e, isErr := args[2].(error); isErr && e != nil {
+					ev = "gen-err"
+				}
+			}
+		case "worker.stopped":
+			ev = fmt.Sprintf("stopped%d", args[1].(int))
+		case "worker.send.before":
+			ev = "send-before"
+		case "worker.send.after":
+			ev = "send-after"
+		case "worker.err.before":
+			ev = "err-before"
+		case "worker.err.close.before":
+			ev = "err-close"
+		}
+		if ev != "" {
+			g := goid()
+			wseqMu.Lock()
+			wseq[g] = append(wseq[g], ev)
+			wseqMu.Unlock()
+		}
 	})
+	defer func() {
+		if len(a.Rest) < 2 {
+			return
+		}
+		wf, err := os.Create(a.Rest[1])
+		if err != nil {
+			hx.Fatal("create worker trace: %v", err)
+		}
+		w := bufio.NewWriter(wf)
+		wseqMu.Lock()
+		for _, sq := range wseq {
+			b, _ := json.Marshal(map[string]any{"seq": sq})
+			w.Write(b)
+			w.WriteByte('\n')
+		}
+		res.Notes["worker_sequences"] = len(wseq)
+		wseqMu.Unlock()
+		w.Flush()
+		wf.Close()
+	}()
 	defer gabikeys.SetVerifHook(nil)
 	defer safeprime.SetVerifHook(nil)
 
